@@ -341,7 +341,7 @@ def _pair_cell(rec, A, B, dt, bA, bB, nA, nB, addsub, full=False):
                 check_value(rec, f"sub_method/{A.name}-{B.name}", lab + "|sub(alpha=-1.5)", lambda: a.sub(b, alpha=-1.5), da + 1.5 * db)
         if pd and da.shape[-1] == da.shape[-2] and (full or (bA, bB) in (((), ()), ((2,), (2,)), ((1,), (2,)), ((3,), (1,)))):
             # operator-by-operator elementwise product (root decompositions): PSD operands
-            check_value(rec, f"mul_op{'' if bc == 'same' else '_bcast'}/{A.name}*{B.name}", lab, lambda: a * b, da * db, scale=100.0)
+            check_value(rec, f"mul_op{'' if bc == 'same' else '_bcast'}/{A.name}%{B.name}", lab, lambda: a * b, da * db, scale=100.0)
     if da.shape[-1] == db.shape[-2]:
         check_value(rec, f"matmul/{A.name}@{B.name}", lab, lambda: a @ b, da @ db, scale=max(1, da.shape[-1]))
 
@@ -406,7 +406,7 @@ def rtc_tensor_operands(names, tier):
     """operator (+,-,*,/) tensor in both operand orders; tensor batch shapes: same / none / all-ones / extra leading / partial"""
     _init()
     rec = Recorder(PID)
-    for label, c, mk, d in _instances(names, tier):
+    for label, c, mk, d in _instances(names, tier, sizes=([1, 3] if tier == "quick" else None)):
         if mk is None:
             rec.check(f"construct/{c.name}", label, False, f"constructor raised {d!r}")
             continue
@@ -424,7 +424,7 @@ def rtc_tensor_operands(names, tier):
             T = zoo.rn(g, *sh, dtype=dt)
             Tnz = torch.where(T >= 0, T + 0.5, T - 0.5)
             lab = f"{label}|T={kind}"
-            cn = c.name
+            cn = f"{c.name}/T={kind}" + ("_1x1" if (m, n) == (1, 1) else "")
             check_value(rec, f"add_tensor/{cn}", lab + "|op+T", lambda: op + T, d + T)
             check_value(rec, f"radd_tensor/{cn}", lab + "|T+op", lambda: T + op, T + d)
             check_value(rec, f"sub_tensor/{cn}", lab + "|op-T", lambda: op - T, d - T)
@@ -444,7 +444,7 @@ def rtc_scalars(names, tier):
     """operator * c, c * operator, operator / c for every scalar kind"""
     _init()
     rec = Recorder(PID)
-    for label, c, mk, d in _instances(names, tier):
+    for label, c, mk, d in _instances(names, tier, sizes=([1, 3] if tier == "quick" else None)):
         if mk is None:
             rec.check(f"construct/{c.name}", label, False, f"constructor raised {d!r}")
             continue
@@ -471,24 +471,27 @@ def rtc_scalars(names, tier):
         for kind, cst in kinds:
             lab = f"{label}|c={kind}"
             exp = d * cst
-            # a 1-element constant with MORE dims than the operator: torch broadcasting adds leading batch dims of size 1
-            sfx = "_1elt_extra_dims" if (torch.is_tensor(cst) and cst.numel() == 1 and cst.dim() > d.dim()) else ""
-            check_value(rec, f"mul_scalar{sfx}/{cn}", lab + "|op*c", lambda: op * cst, exp, dtype=dt)
-            check_value(rec, f"rmul_scalar{sfx}/{cn}", lab + "|c*op", lambda: cst * op, exp, dtype=dt)
+            # one group per (operation, case, kind class): python number / 0-d / 1-element / batch of constants with the operator's batch
+            # shape / partially specified batch / larger batch / 1-element constant with MORE dims than the operator
+            kc = ("py" if not torch.is_tensor(cst) else "t111" if (cst.numel() == 1 and cst.dim() > d.dim()) else "t0" if cst.dim() == 0 else "t1elt" if kind.startswith("t1") or kind == "tb_ones_shape"
+                  else "tb_partial" if kind.startswith("tb_partial") else "tb_extra" if kind.startswith("tb_extra") else "tb")
+            gn = f"{c.name}/{kc}"
+            check_value(rec, f"mul_scalar/{gn}", lab + "|op*c", lambda: op * cst, exp, dtype=dt)
+            check_value(rec, f"rmul_scalar/{gn}", lab + "|c*op", lambda: cst * op, exp, dtype=dt)
             if kind in ("py_pos", "t0_neg", "tb_mixed", "tb_pos"):
-                check_value(rec, f"mul_scalar/{cn}", lab + "|op.mul(c)", lambda: op.mul(cst), exp, dtype=dt)
+                check_value(rec, f"mul_scalar/{gn}", lab + "|op.mul(c)", lambda: op.mul(cst), exp, dtype=dt)
             nonzero = bool((cst != 0).all()) if torch.is_tensor(cst) else cst != 0
             if nonzero:
-                check_value(rec, f"div_scalar{sfx}/{cn}", lab + "|op/c", lambda: op / cst, d / cst, dtype=dt)
+                check_value(rec, f"div_scalar/{gn}", lab + "|op/c", lambda: op / cst, d / cst, dtype=dt)
                 if kind in ("py_neg", "t0_pos", "tb_mixed"):
-                    check_value(rec, f"div_scalar/{cn}", lab + "|op.div(c)", lambda: op.div(cst), d / cst, dtype=dt)
+                    check_value(rec, f"div_scalar/{gn}", lab + "|op.div(c)", lambda: op.div(cst), d / cst, dtype=dt)
         # python scalars while torch's default dtype differs from the operator's dtype
         other = torch.float64 if dt == torch.float32 else torch.float32
         with _default_dtype(other):
             lab = f"{label}|default={_dts(other)}"
-            check_value(rec, f"mul_scalar/{cn}", lab + "|c=py_pos|op*c", lambda: op * 2.5, d * 2.5, dtype=dt)
-            check_value(rec, f"rmul_scalar/{cn}", lab + "|c=py_neg|c*op", lambda: -1.5 * op, d * -1.5, dtype=dt)
-            check_value(rec, f"div_scalar/{cn}", lab + "|c=py_neg|op/c", lambda: op / -4.0, d / -4.0, dtype=dt)
+            check_value(rec, f"mul_scalar/{cn}/py", lab + "|c=py_pos|op*c", lambda: op * 2.5, d * 2.5, dtype=dt)
+            check_value(rec, f"rmul_scalar/{cn}/py", lab + "|c=py_neg|c*op", lambda: -1.5 * op, d * -1.5, dtype=dt)
+            check_value(rec, f"div_scalar/{cn}/py", lab + "|c=py_neg|op/c", lambda: op / -4.0, d / -4.0, dtype=dt)
     return rec.obligations()
 
 
@@ -697,8 +700,25 @@ class _Abort(Exception):
 PROG_BATCHES = [(), (), (2,), (1,), (3, 2), (1, 2), (3, 1)]
 
 
+def _short(o):
+    return type(o).__name__.replace("LinearOperator", "") or "LinearOperator"
+
+
 def _cls(x):
-    return type(x).__name__ if isinstance(x, LinearOperator) else "Tensor"
+    """runtime class of a program operand with the classes nested inside it: Top or Top<+A+B+> (A, B: sorted distinct classes of all
+    descendants) - defects of a child class surface in steps on composites, so the group name must show them"""
+    if not isinstance(x, LinearOperator):
+        return "Tensor"
+    seen = set()
+
+    def walk(o):
+        for a in list(o._args) + list(o._kwargs.values()):
+            if isinstance(a, LinearOperator):
+                seen.add(_short(a))
+                walk(a)
+
+    walk(x)
+    return _short(x) + ("<+" + "+".join(sorted(seen)) + "+>" if seen else "")
 
 
 class _Prog:
@@ -777,7 +797,8 @@ class _Prog:
             if k == "rsub":
                 return self.step("rsub", f"(T{tuple(x.d.shape)} - {y.text})", lambda: x.v - y.v, x.d - y.d, [x, y])
             if k == "rmul":
-                return self.step("rmul", f"(T{tuple(x.d.shape)} * {y.text})", lambda: x.v * y.v, x.d * y.d, [x, y])
+                nm = "rmul_1elt_extra_dims" if (x.d.numel() == 1 and x.d.dim() > y.d.dim()) else "rmul"
+                return self.step(nm, f"(T{tuple(x.d.shape)} * {y.text})", lambda: x.v * y.v, x.d * y.d, [x, y])
             if n != m:
                 raise _Abort()
             return self.step("rmatmul", f"(T{tuple(x.d.shape)} @ {y.text})", lambda: x.v @ y.v, x.d @ y.d, [x, y], scale=n)
@@ -840,7 +861,8 @@ class _Prog:
                 return self.step("add_tensor", f"({xt} + {ts})", lambda: x.v + T, x.d + T, [x])
             if k == "rsub_tensor":
                 return self.step("rsub_tensor", f"({ts} - {xt})", lambda: T - x.v, T - x.d, [x])
-            return self.step("mul_tensor", f"({xt} * {ts})", lambda: x.v * T, x.d * T, [x])
+            nm = "mul_tensor_1elt_extra_dims" if (T.numel() == 1 and T.dim() > x.d.dim()) else "mul_tensor"
+            return self.step(nm, f"({xt} * {ts})", lambda: x.v * T, x.d * T, [x])
         if k == "matmul_tensor":
             T = self.tensor(*self.bshape(x), n, R.choice([1, 3, n]))
             return self.step("matmul_tensor", f"({xt} @ T{tuple(T.shape)})", lambda: x.v @ T, x.d @ T, [x], scale=n)
@@ -966,7 +988,7 @@ RTC_META = {
     ],
     "families": "quick: (1) all 62x62 ordered pairs of 52 zoo + 10 extra cases (negative/indefinite diagonals, semi-definite roots, other child classes) that share a matrix "
                 "shape: +, -, add/sub(alpha), @ (also rectangular inner dims), elementwise * on PSD pairs; 2 matrix shapes x up to 6 batch-shape pairs (equal, one-sided, "
-                "size-1, two-sided broadcast) x float64/float32; (2) per case x {float64: 5 batch shapes x sizes 1,3,4; float32 sub-grid}: tensor operands of 5 batch kinds for "
+                "size-1, two-sided broadcast) x float64/float32; (2) per case x {float64: 5 batch shapes x sizes 1,3,4 (1,3 for the tensor / scalar operand families); float32 sub-grid}: tensor operands of 5 batch kinds for "
                 "+,-,*,/ in both orders, 17-20 scalar kinds (python float/int +,-,0,1; 0-d; 1-element of rank 1..3; batch of constants positive/mixed/negative/with zero/"
                 "all-ones shape/partial leading/partial trailing/larger batch) for *, reversed *, /, also under the other default dtype; expand/repeat/unsqueeze/squeeze/"
                 "permute (all permutations)/transpose/sum over every dim incl. negative dims; add_diagonal (0-d, 1-elt, full, signed, batched, (..,1), broadcast, partial, "
